@@ -308,7 +308,7 @@ Expect(i) ==
       ambiguousNil == c.gv.k = "null" /\ c.K.g \in {"slice", "map", "setmap"}
       tg == IF ambiguousNil THEN {}
             ELSE IF conv = "ok"
-            THEN {[K |-> K, exp |-> ConvOut(c.T, cv, K), mayerr |-> OutMayErr(c.T, cv, K)] : K \in {k \in cands : ~IsErr(ConvOut(c.T, cv, k))}}
+            THEN {[K |-> K, exp |-> ConvOutTop(c.T, cv, K), mayerr |-> OutMayErr(c.T, cv, K)] : K \in {k \in cands : ~IsErr(ConvOutTop(c.T, cv, k))}}
             ELSE IF c.T.t \in FixedIntTypes /\ Strip(Strip(c.K)).g \in AllIntKinds \cup {"bigint", "string"} /\ c.gv.k = "int"
             \* the column cannot hold the value: should Marshal succeed all the same, no documented target
             \* that can represent the value may silently read something else (C02)
